@@ -2688,10 +2688,248 @@ def gen_c01(read, num):
     return lines, broken
 
 
+def gen_c17(read, num):
+    """C17 part: `Node::rpc_call_raw_with_timeout` as the sequence of its accesses to shared state, awaits and exits in
+    source order; the two places where the key text of `pending_rpcs` is built; the `Send` arm of `route_message`; the
+    wrappers (`rpc_call`, `rpc_call_with_timeout`, `rpc_call_raw`), the `erlang_*` convenience calls, the request term
+    and `OwnedTerm::into_rex_response`.  `Props/C17.lean` compares these with the steps / program counters of the
+    model, so a new await, early return, removal or wrapper is a broken proof obligation."""
+    broken, lines = [], []
+
+    def strs(xs):
+        return "[" + ", ".join('"' + x.replace("\\", "\\\\").replace('"', '\\"') + '"' for x in xs) + "]"
+
+    def clean(body):
+        body = re.sub(r"//[^\n]*", "", body)
+        body = re.sub(r"#\[cfg\(edp_rs_verif\)\]", "", body)
+        body = re.sub(r"tracing\s*::\s*[a-z]+!\s*\((?:[^()]|\([^()]*\))*\)\s*;", "", body)
+        return re.sub(r"\s+", "", body)
+
+    node = read("crates/edp_node/src/node.rs")
+    steps, key_call, key_route, route_steps, wrappers, req_shape, req_to = [], ("", []), ("", []), [], [], [], ""
+    timeout_ms = 0
+    guard_drop = []
+    if node is None:
+        broken.append("node.rs missing")
+    else:
+        body = _fn_body(node, r"pub\s+async\s+fn\s+rpc_call_raw_with_timeout\s*\(")
+        if body is None:
+            broken.append("node.rs: fn rpc_call_raw_with_timeout body not found")
+        else:
+            b = clean(body)
+            pat = re.compile(
+                r"(?P<allocate>\.allocate\(\))|(?P<expect>\.expect\()|(?P<channel>oneshot::channel\(\))"
+                r"|yield_point\(\"(?P<yield>[a-z_:]+)\"\)\.await"
+                r"|(?P<insert>self\.pending_rpcs\.insert\()|(?P<guard>PendingRpcGuard\{)"
+                r"|(?P<get>self\.connections\.get\()|(?P<lock>conn\.lock\(\)\.await)"
+                r"|(?P<send>\.send_to_name\((?:[^()]|\([^()]*\))*\)\.await)"
+                r"|(?P<remove>self\.pending_rpcs\.remove\()|(?P<reterr>returnErr\()"
+                r"|(?P<timeout>tokio::time::timeout\(timeout,rx\)\.await)"
+                r"|map_err\(\|_\|Error::(?P<tryerr>[A-Za-z]+)(?:\([a-z_]*\))?\)\?"
+                r"|(?P<await>\.await)|(?P<try>\?)|(?P<retok>Ok\(response\)$)|(?P<ret>\breturn\b)")
+            names = {"allocate": "allocate", "expect": "expect", "channel": "channel", "insert": "insert", "guard": "guard",
+                     "get": "get", "lock": "await:lock", "send": "await:send_to_name", "remove": "remove",
+                     "reterr": "return:err", "timeout": "await:timeout", "await": "await:?", "try": "try:?",
+                     "retok": "return:ok", "ret": "return:?"}
+            for m in pat.finditer(b):
+                k = m.lastgroup
+                if k == "yield":
+                    steps.append("yield:" + m.group("yield"))
+                elif k == "tryerr":
+                    steps.append("try:" + m.group("tryerr"))
+                else:
+                    steps.append(names[k])
+            if not steps:
+                broken.append("node.rs rpc_call_raw_with_timeout: no step recognised")
+            m = re.search(r"format!\(\"([^\"]*)\",((?:reply_to_pid\.[a-z_]+,?)+)\)", b)
+            if not m:
+                broken.append("node.rs rpc_call_raw_with_timeout: `format!(\"..\", reply_to_pid.<field>, ..)` (key text) not found")
+            else:
+                key_call = (m.group(1), re.findall(r"reply_to_pid\.([a-z_]+)", m.group(2)))
+            m = re.search(r"OwnedTerm::Tuple\(vec!\[OwnedTerm::Pid\(reply_to_pid\.clone\(\)\),OwnedTerm::Tuple\(vec!\[((?:OwnedTerm::[A-Za-z]+\((?:[^()]|\([^()]*\))*\),?)+)\]\),?\]\)", b)
+            if not m:
+                broken.append("node.rs rpc_call_raw_with_timeout: request `{Pid, {..}}` not found")
+            else:
+                for kind, arg in re.findall(r"OwnedTerm::([A-Za-z]+)\(((?:[^()]|\([^()]*\))*)\)", m.group(1)):
+                    lit = re.fullmatch(r"Atom::new\(\"([^\"]*)\"\)", arg)
+                    var = re.fullmatch(r"Atom::new\(([a-z_]+)\)", arg)
+                    if kind == "Atom" and lit:
+                        req_shape.append("atom:" + lit.group(1))
+                    elif kind == "Atom" and var:
+                        req_shape.append("atom=" + var.group(1))
+                    elif kind == "List" and re.fullmatch(r"[a-z_]+", arg):
+                        req_shape.append("list=" + arg)
+                    else:
+                        req_shape.append("?" + kind)
+            m = re.search(r"\.send_to_name\(reply_to_pid,Atom::new\(\"([^\"]*)\"\),call_request\)", b)
+            if not m:
+                broken.append("node.rs rpc_call_raw_with_timeout: `send_to_name(reply_to_pid, Atom::new(\"..\"), call_request)` not found")
+            else:
+                req_to = m.group(1)
+        m = re.search(r"impl\s+Drop\s+for\s+PendingRpcGuard\s*<[^>]*>\s*\{", node)
+        gb = _fn_body(node[m.start():], r"fn\s+drop\s*\(\s*&mut\s+self\s*\)\s*\{") if m else None
+        if gb is None:
+            broken.append("node.rs: impl Drop for PendingRpcGuard not found")
+        else:
+            guard_drop = re.findall(r"self\.([a-z_]+)\.([a-z_]+)\(self\.([a-z_]+)\)", clean(gb))
+            guard_drop = [".".join(x) for x in guard_drop]
+        body = _fn_body(node, r"async\s+fn\s+route_message\s*\(")
+        if body is None:
+            broken.append("node.rs: fn route_message body not found")
+        else:
+            b = clean(body)
+            m = re.search(r"ControlMessage::Send\{to_pid,\.\.\}\|ControlMessage::SendTt\{to_pid,\.\.\}=>\{(.*?)\}ControlMessage::RegSend", b)
+            if not m:
+                broken.append("node.rs route_message: `Send { to_pid, .. } | SendTt { to_pid, .. } => {` arm not found")
+            else:
+                arm = m.group(1)
+                pat = re.compile(
+                    r"(?P<payload>ifletSome\(body\)=payload)|(?P<pid>&&letOwnedTerm::Pid\(pid\)=to_pid)"
+                    r"|(?P<get>ifletSome\(handle\)=registry\.get\(&pid\)\.await)"
+                    r"|(?P<deliver>handle\.send\(Message::Regular\{from:None,body\}\)\.await\?)|(?P<else>\}else\{)"
+                    r"|yield_point\(\"(?P<yield>[a-z_:]+)\"\)\.await"
+                    r"|(?P<remove>ifletSome\(\(_key,sender\)\)=pending_rpcs\.remove\(&pid_str\))"
+                    r"|(?P<send>let_=sender\.send\(body\))|(?P<await>\.await)|(?P<try>\?)|(?P<ret>\breturn\b)")
+                names = {"payload": "payload?", "pid": "pid?", "get": "registry.get", "deliver": "process.send", "else": "else",
+                         "remove": "pending.remove", "send": "sender.send", "await": "await:?", "try": "try:?", "ret": "return:?"}
+                for x in pat.finditer(arm):
+                    k = x.lastgroup
+                    route_steps.append("yield:" + x.group("yield") if k == "yield" else names[k])
+                x = re.search(r"format!\(\"([^\"]*)\",((?:pid\.[a-z_]+,?)+)\)", arm)
+                if not x:
+                    broken.append("node.rs route_message: `format!(\"..\", pid.<field>, ..)` (key text) not found")
+                else:
+                    key_route = (x.group(1), re.findall(r"pid\.([a-z_]+)", x.group(2)))
+        for name in ("rpc_call", "rpc_call_with_timeout", "rpc_call_raw"):
+            body = _fn_body(node, r"pub\s+async\s+fn\s+" + name + r"\s*\(")
+            if body is None:
+                broken.append(f"node.rs: fn {name} body not found")
+                continue
+            b = clean(body)
+            m = re.search(r"self\.(rpc_call[a-z_]*)\(remote_node,module,function,args,([A-Za-z_]+)\)\.await(\??)", b)
+            if not m:
+                broken.append(f"node.rs {name}: `self.rpc_call…(remote_node, module, function, args, <timeout>).await` not found")
+                continue
+            rest = b[m.end():]
+            unwrap = "rex" if re.fullmatch(r";response\.into_rex_response\(\)\.map_err\(Error::from\)", rest) else ("" if rest == "" else "?")
+            if len(re.findall(r"\.await", b)) != 1:
+                unwrap = "?"
+            wrappers.append((name, m.group(1), m.group(2), unwrap))
+        m = re.search(r"const\s+DEFAULT_RPC_TIMEOUT\s*:\s*Duration\s*=\s*Duration\s*::\s*from_(secs|millis)\s*\(\s*([0-9_]+)\s*\)\s*;", node)
+        if not m:
+            broken.append("node.rs: const DEFAULT_RPC_TIMEOUT: Duration = Duration::from_secs|from_millis(<n>); not found")
+        else:
+            timeout_ms = num(m.group(2)) * (1000 if m.group(1) == "secs" else 1)
+
+    fns = []
+    src = read("crates/edp_node/src/erlang_mod_fns.rs")
+    if src is None:
+        broken.append("erlang_mod_fns.rs missing")
+    else:
+        t = clean(src)
+        heads = list(re.finditer(r"pubasyncfn([a-z_0-9]+)\(&self,remote_node:&str,?((?:[a-z_]+:[A-Za-z<>&]+,?)*)\)->Result<OwnedTerm>\{", t))
+        for i, m in enumerate(heads):
+            end = heads[i + 1].start() if i + 1 < len(heads) else len(t)
+            b = t[m.end():end]
+            c = re.search(r"self\.(rpc_call[a-z_]*)\(remote_node,\"([a-z_]+)\",\"([a-z_]+)\",(.*?),?\)\.await\}", b)
+            if not c or len(re.findall(r"\.await", b)) != 1:
+                broken.append(f"erlang_mod_fns.rs {m.group(1)}: body is not one `self.rpc_call(remote_node, \"m\", \"f\", args).await`")
+                continue
+            pre = b[:c.start()]
+            params = ",".join(re.findall(r"([a-z_]+):", m.group(2)))
+            fns.append((m.group(1), params, c.group(1), c.group(2), c.group(3), pre + c.group(4)))
+        if len(re.findall(r"\bfn\b", re.sub(r"//[^\n]*", "", src))) != len(fns):
+            broken.append("erlang_mod_fns.rs: a function that is not `pub async fn f(&self, remote_node: &str, ..) -> Result<OwnedTerm>` with a single rpc call")
+
+    rex = (0, "", 0)
+    term = read("crates/erltf/src/term.rs")
+    if term is None:
+        broken.append("term.rs missing")
+    else:
+        body = _fn_body(term, r"pub\s+fn\s+into_rex_response\s*\(\s*self\s*\)")
+        m = re.fullmatch(r"matchself\{OwnedTerm::Tuple\(mutelements\)ifelements\.len\(\)==([0-9]+)=>\{ifelements\[0\]\.is_atom_with_name\(\"([a-z]+)\"\)\{Ok\(elements\.swap_remove\(([0-9]+)\)\)\}else\{Err\(TermConversionError::WrongType\{expected:\"[^\"]*\",actual:\"[^\"]*\",?\}\)\}\}_=>Err\(TermConversionError::WrongType\{expected:\"[^\"]*\",actual:self\.type_name\(\),?\}\),?\}", clean(body) if body else "")
+        if not m:
+            broken.append("term.rs into_rex_response: no longer `Tuple(elements) if len == 2 => if elements[0] is atom \"rex\" { Ok(elements.swap_remove(1)) } else Err; _ => Err`")
+        else:
+            rex = (num(m.group(1)), m.group(2), num(m.group(3)))
+            if rex[2] != rex[0] - 1:
+                broken.append("term.rs into_rex_response: swap_remove of an element that is not the last one reorders the rest")
+
+    # every use of the node's allocator and of its creation cell, over the whole file
+    alloc_uses, creation_uses = [], []
+    if node is not None:
+        text = re.sub(r"//[^\n]*", "", node)
+        fnpos = [(m.start(), m.group(1)) for m in re.finditer(r"\bfn\s+([a-z_0-9]+)\s*[<(]", text)]
+
+        def where(pos):
+            fn = "-"
+            for p0, name in fnpos:
+                if p0 < pos:
+                    fn = name
+            return fn
+
+        for m in re.finditer(r"\bpid_allocator\b", text):
+            rest = re.sub(r"\s+", "", text[m.end():m.end() + 200])
+            before = re.sub(r"\s+", "", text[max(0, m.start() - 40):m.start()])
+            x = re.match(r"\.([a-z_]+)\(", rest)
+            if x:
+                what = "." + x.group(1) + "()"
+            elif rest.startswith("=Arc::new(PidAllocator::new("):
+                what = "=new"
+            elif rest.startswith("=") and not rest.startswith("=="):
+                what = "=?"
+            elif rest.startswith(":Arc<PidAllocator>"):
+                what = ":field"
+            elif rest.startswith(","):
+                what = ",init"
+            else:
+                what = "?" + rest[:12]
+            if before.endswith("let") and what == "=new":
+                what = "let=new"
+            alloc_uses.append(("struct" if what == ":field" else where(m.start())) + ":" + what)
+        for m in re.finditer(r"\bself\s*\.\s*creation\b", text):
+            rest = re.sub(r"\s+", "", text[m.end():m.end() + 80])
+            x = re.match(r"\.([a-z_]+)\(", rest)
+            what = "." + x.group(1) + "()" if x else ("=?" if rest.startswith("=") and not rest.startswith("==") else "?" + rest[:12])
+            creation_uses.append(where(m.start()) + ":" + what)
+        if not alloc_uses:
+            broken.append("node.rs: no use of `pid_allocator` found")
+    lines.append("/-- every occurrence of `pid_allocator` in node.rs as `function:use` (`.m()` a method call, `=new` an assignment of a new")
+    lines.append("allocator, `=?` another assignment, `:field` the field declaration, `,init` the struct literal) -/")
+    lines.append(f"def NODE_PID_ALLOCATOR_USES : List String := {strs(alloc_uses)}")
+    lines.append("/-- every occurrence of `self.creation` in node.rs as `function:use` -/")
+    lines.append(f"def NODE_CREATION_USES : List String := {strs(creation_uses)}")
+    lines.append("/-- `Node::rpc_call_raw_with_timeout` (node.rs): allocation, accesses to `pending_rpcs` / `connections`, every `.await`")
+    lines.append("(`yield:` = verification yield point), every early return / `?` / `expect`, in source order -/")
+    lines.append(f"def RPC_CALL_STEPS : List String := {strs(steps)}")
+    lines.append("/-- the key text of `pending_rpcs` as built by the caller and by `route_message`: format string and pid fields -/")
+    lines.append(f"def RPC_KEY_FORMAT_CALL : String × List String := (\"{key_call[0]}\", {strs(key_call[1])})")
+    lines.append(f"def RPC_KEY_FORMAT_ROUTE : String × List String := (\"{key_route[0]}\", {strs(key_route[1])})")
+    lines.append("/-- what `PendingRpcGuard::drop` does -/")
+    lines.append(f"def RPC_GUARD_DROP : List String := {strs(guard_drop)}")
+    lines.append("/-- the `Send | SendTt` arm of `Node::route_message` in source order -/")
+    lines.append(f"def ROUTE_SEND_ARM_STEPS : List String := {strs(route_steps)}")
+    lines.append("/-- the second element of the request `{Pid, {..}}` and the registered name it is sent to -/")
+    lines.append(f"def RPC_REQUEST_SHAPE : List String := {strs(req_shape)}")
+    lines.append(f"def RPC_REQUEST_TO : String := \"{req_to}\"")
+    lines.append("/-- the wrappers: name, the call it awaits, its timeout argument, what it does to the result (`rex` = `into_rex_response`) -/")
+    lines.append("def RPC_WRAPPERS : List (String × String × String × String) := [" + ", ".join(f'("{a}", "{b}", "{c}", "{d}")' for a, b, c, d in wrappers) + "]")
+    lines.append("/-- `DEFAULT_RPC_TIMEOUT` of node.rs in milliseconds -/")
+    lines.append(f"def DEFAULT_RPC_TIMEOUT_MS : Nat := {timeout_ms}")
+    lines.append("/-- erlang_mod_fns.rs: name, parameters after `remote_node`, the call it awaits, module, function, argument expression -/")
+    lines.append("def ERLANG_MOD_FNS : List (String × String × String × String × String × String) := [")
+    lines.append(",\n".join("  (" + ", ".join('"' + x.replace('"', '\\"') + '"' for x in f) + ")" for f in fns))
+    lines.append("]")
+    lines.append("/-- `OwnedTerm::into_rex_response` (term.rs): tuple arity, name of the first element, index of the element returned -/")
+    lines.append(f"def REX_RESPONSE : Nat × String × Nat := ({rex[0]}, \"{rex[1]}\", {rex[2]})")
+    lines.append("")
+    return lines, broken
+
+
 def run(read, emit, num):
     body = "namespace Edp.Gen\n\n"
     broken = []
-    for part in (gen_c16, gen_c09, gen_c04, gen_c15, gen_c13, gen_c18, gen_c19, gen_state, gen_c20, gen_c05, gen_c08, gen_c10, gen_c11, gen_c07, gen_c14, gen_c16b, gen_c02, gen_c01):
+    for part in (gen_c16, gen_c09, gen_c04, gen_c15, gen_c13, gen_c18, gen_c19, gen_state, gen_c20, gen_c05, gen_c08, gen_c10, gen_c11, gen_c07, gen_c14, gen_c16b, gen_c02, gen_c01, gen_c17):
         ls, br = part(read, num)
         body += "\n".join(ls) + "\n"
         broken += br
